@@ -18,8 +18,8 @@ import (
 	"time"
 
 	"gitlab.com/yawning/obfs4.git/transports/obfs4"
-	ref "verif.local/harness/ref/obfs4"
 	"verif.local/harness/o4"
+	ref "verif.local/harness/ref/obfs4"
 	"verif.local/harness/stream"
 	"verif.local/harness/vt"
 )
@@ -28,7 +28,7 @@ type scenario struct {
 	ID     string        `json:"id"`
 	Client string        `json:"client"` // real | ref
 	Server string        `json:"server"`
-	Seed   string        `json:"seed"`   // server DRBG seed (hex), "" random
+	Seed   string        `json:"seed"` // server DRBG seed (hex), "" random
 	SIAT   int           `json:"siat"`
 	CIAT   int           `json:"ciat"`
 	Biased bool          `json:"biased"`
@@ -37,6 +37,7 @@ type scenario struct {
 	CPad   int           `json:"cpad"`   // reference client: request padding
 	RefPad bool          `json:"refpad"` // reference endpoints add random packet padding to their writes
 	RSeed  int64         `json:"rseed"`
+	Skew   int           `json:"skew"` // reference client: clock offset in hours (-1, 0, 1)
 	Wire   bool          `json:"wire"` // C06: re-derive what the real endpoints put on the wire with the reference codec
 	Script stream.Script `json:"script"`
 }
@@ -98,6 +99,7 @@ func run(w *vt.Writer, s *scenario) {
 		}
 	}
 	var rc, rs *ref.Conn
+	b.RefSkewHours = s.Skew
 	mkC := b.RealClient(s.CIAT, s.Legacy)
 	if s.Client == "ref" {
 		mkC = b.RefClient(s.CPad, pad, noise, &rc)
@@ -158,7 +160,7 @@ func run(w *vt.Writer, s *scenario) {
 	if s.Server == "real" && rc != nil && rc.Response != nil && len(chunks["s2c"]) > 0 {
 		all := cat(chunks["s2c"])
 		first := chunks["s2c"][0]
-		info, err := ref.ExplainResponse(b.ID, all, now)
+		info, err := ref.ExplainResponse(b.ID, all, ref.EpochHour(b.RefUsedNow)) // MAC_S is under the hour the CLIENT used
 		ev := vt.Ev{"event": "Resp", "padlen": -1, "len": 0, "mark_ok": false, "mac_ok": false, "seed_flen": 0, "seed_ok": false, "seed_pad": -1, "total": len(first)}
 		if info != nil && err == nil {
 			ev["padlen"], ev["len"], ev["mark_ok"], ev["mac_ok"] = info.PadLen, info.Len, info.MarkOK, info.MacOK
